@@ -15,7 +15,7 @@ import pandas as pd
 
 from sim import kernel, seams, refmodels
 from sim.kernel import HarnessError
-from checks.c08_expgrad import gen_dataset, make_moment, index_key
+from checks.c08_expgrad import gen_dataset, make_moment, index_key, derive_rows
 
 PROPERTY = "C09"
 
@@ -75,6 +75,8 @@ def gen_plan(seed, index, tier):
         "clock": [[rng.choice(["fwd", "fwd", "back", "stall"]), rng.choice([1e-3, 1.0, 100.0, 1e6])] for _ in range(130)],
         "stall_rerun": rng.random() < 0.25,
     }
+    # history: an earlier fit of the same GridSearch object on the same X with other labels/groups
+    plan["prior_rows"] = derive_rows(rng, rows) if (index >= 50 and not kind.startswith("BGL") and rng.random() < 0.25) else None
     return plan
 
 
@@ -113,6 +115,15 @@ def fit_once(plan, ctx, stall=False):
     ctx.ties.pos = 0
     ctx.clock.dl.pos = 0
     ctx.clock.force_stall = stall
+    if plan.get("prior_rows"):
+        pr = plan["prior_rows"]
+        with ctx.clock_installed():
+            okp, retp, sitep = ctx.call(gs.fit, X, np.array([r[2] for r in pr]),
+                                        sensitive_features=np.array([f"g{r[1]}" for r in pr]))
+        if not okp:
+            ctx.clock.force_stall = False
+            return okp, retp, sitep, gs, est, X, y, g
+        ctx.fault("refit_history")
     ctx.oracle_log = []
     with ctx.clock_installed():
         ok, ret, site = ctx.call(gs.fit, X, y, sensitive_features=g)
@@ -180,6 +191,10 @@ def execute(plan, ctx):
         ref = refmodels.ParityRef(plan["moment"], y, g, ratio=plan["ratio"], bound=plan["bound"])
         repo_ids = {index_key(i) for i in lam_df.index}
         if repo_ids != set(ref.ids):
+            if {(i[0], i[2]) for i in repo_ids} != {(i[0], i[2]) for i in ref.ids}:
+                ctx.fail("C09.constraint_groups", f"multipliers/gammas_ are indexed by {sorted(repo_ids)} but the fitted data has the "
+                         f"(event, group) pairs {sorted(ref.ids)}")
+                return
             raise HarnessError(f"constraint index mismatch: {sorted(repo_ids)} vs {sorted(ref.ids)}")
         H = refmodels.ClassRef(ref, [r[0] for r in rows])
     # ---- 2. exactly-once requests with faithful payload, isolated copies ---------
@@ -330,7 +345,8 @@ def execute(plan, ctx):
               lam_digest=float(np.abs(L).sum()))
     pos = "first" if bi == 0 else ("last" if bi == len(cols) - 1 else "mid")
     ctx.state({"m": plan["moment"], "ratio": plan["bound_kind"] == "ratio", "dim": int(L.shape[0]),
-               "gs": min(plan["grid_size"] // 10, 4), "dummy": min(n_dummy, 3), "tie": ties > 0, "pos": pos})
+               "gs": min(plan["grid_size"] // 10, 4), "dummy": min(n_dummy, 3), "tie": ties > 0, "pos": pos,
+               "refit": bool(plan.get("prior_rows"))})
     ctx.transition({"m": plan["moment"], "pos": pos, "peer": is_peer})
 
 
@@ -357,6 +373,8 @@ def shrink_candidates(plan):
         return q
 
     rows = p["rows"]
+    if p.get("prior_rows"):
+        yield mod(prior_rows=None)
     if p.get("clock"):
         yield mod(clock=[])
     if p.get("stall_rerun"):
@@ -365,7 +383,7 @@ def shrink_candidates(plan):
         yield mod(ties=[])
     for gsz in [s for s in (2, 3, 4, 5, 7, 10, 13, 20, 31, 45) if s < p["grid_size"]]:
         yield mod(grid_size=gsz)
-    n = len(rows)
+    n = 0 if p.get("prior_rows") else len(rows)
     for size in (n // 2, n // 4, 2, 1):
         if size < 1:
             continue
@@ -374,6 +392,8 @@ def shrink_candidates(plan):
             if len(cand) >= 4 and len({r[2] for r in cand}) >= 2 and len({r[1] for r in cand}) >= 2:
                 yield mod(rows=cand)
     grps = sorted({r[1] for r in rows})
+    if p.get("prior_rows"):
+        return
     if len(grps) > 2:
         yield mod(rows=[(r[0], min(r[1], grps[-2]), r[2]) for r in rows])
     vals = sorted({r[0] for r in rows})
